@@ -558,9 +558,8 @@ func (s *StorageDeco) GetPreprepareMessage(h primitives.BlockHeight, v primitive
 	return s.inner.GetPreprepareMessage(h, v)
 }
 func (s *StorageDeco) GetPreprepareBlock(h primitives.BlockHeight, v primitives.View) (interfaces.Block, bool) {
-	if _, ok := s.inner.GetPreprepareMessage(h, v); !ok {
-		return nil, false // the real implementation dereferences nil here; not used by the library
-	}
+	// passed through as it is (the real implementation dereferences nil when the height is known and the view is not:
+	// the library as it stands never calls it; a change that starts to must meet the real behaviour)
 	return s.inner.GetPreprepareBlock(h, v)
 }
 func (s *StorageDeco) GetLatestPreprepare(h primitives.BlockHeight) (*interfaces.PreprepareMessage, bool) {
